@@ -18,7 +18,7 @@ RULE = (
     "constructors of 6 link classes with ends drawn from pool+None (P(same vertex at both ends) is high "
     "because pools are tiny), v1=/v2= with the new end equal to the old end / the other end / a third vertex / "
     "None, link_directed/undirected/from_to(dontdup), unlink(a,b,destroy) incl. a is b, Vertex.add_to_link/"
-    "remove_from_link, Link.add_vertex/unlink_from (incl. None, already-listed vertices), Vertex(links=[..]), and the adjacency builders load_adj_dict / load_adj_matrix applied to existing vertices.  "
+    "remove_from_link, Link.add_vertex/unlink_from (incl. None, already-listed vertices), Vertex(links=[..]), bulk creation of 7-33 parallel links (per-vertex size thresholds), toggles of Vertex.NEIGHBOR_CACHING in between, and the adjacency builders load_adj_dict / load_adj_matrix applied to existing vertices.  "
     "Bounded-exhaustive for all histories up to the stated length over 2 vertices+None, Hypothesis beyond.  "
     "After EVERY call, returned or raised, for every vertex and link reachable from the pool: "
     "(L in v.links) == (v in L.vertices) by identity and v.links has no repeat.  Non-trivial = >= 3 "
@@ -44,7 +44,7 @@ TECHNIQUE = "model-free stateful PBT: op-list histories (exhaustive small scope 
 
 OPS_W = (
     ["edge"] * 5 + ["v1"] * 3 + ["v2"] * 3 + ["link"] * 2 + ["unlink"] * 2
-    + ["al", "rl", "av", "uf"] * 2 + ["newv", "adj"]
+    + ["al", "rl", "av", "uf"] * 2 + ["newv", "adj", "flag", "bulk"]
 )
 
 
@@ -159,6 +159,15 @@ def check_case(case):
         if r is None:
             continue
         name = r[0]
+        if name == "flag":
+            # the invariant must hold whatever the neighbor-caching flag is and whenever it is toggled
+            from edgegraph.structure import Vertex
+
+            Vertex.NEIGHBOR_CACHING = bool(r[1] & 1)
+            classes.add("caching-flag-toggled")
+            continue
+        if name == "bulk":
+            classes.add("bulk-parallel-links(>=7)")
         # classify aliasing before the call
         if name == "edge" and r[2] is not None and r[2] == r[3]:
             alias = True
